@@ -273,14 +273,15 @@ int main(int argc, char** argv)
   else if(mode == "deep")
   {
     static const int depths[] = {1, 10, 100, 1000};
-    for(int d = 0; d < 4; ++d) for(int closed = 0; closed < 2; ++closed)
+    // kind 1 / 2: every level also holds an empty / a non-empty sibling before the next level opens
+    for(int kind = 0; kind < 3; ++kind) for(int d = 0; d < 4; ++d) for(int closed = 0; closed < 2; ++closed)
     {
       if(!sh.take()) continue;
       std::string text;
-      for(int i = 0; i < depths[d]; ++i) text += "<a x=\"1\">";
+      for(int i = 0; i < depths[d]; ++i) text += kind == 0 ? "<a x=\"1\">" : kind == 1 ? "<a x=\"1\"><e/>" : "<a x=\"1\"><e>s</e>";
       text += "t";
       if(closed) for(int i = 0; i < depths[d]; ++i) text += "</a>";
-      std::string cs = vf::fmt("deep depth=%d closed=%d", depths[d], closed);
+      std::string cs = vf::fmt("deep kind=%d depth=%d closed=%d", kind, depths[d], closed);
       vf::crumb("xml.deep", sh.token(), cs);
       vf::watchdog_arm(60000);
       vf::Exact e(text, true);
@@ -409,6 +410,39 @@ int main(int argc, char** argv)
         vf::violation("C16:xml:roundtrip", cs, vf::fmt("serialised text is rejected: line %d column %d: %s", ps.getErrorLine(), ps.getErrorColumn(), (const char*)ps.getErrorString()));
       else if(!same(back, root, why, "/r")) vf::violation("C16:xml:roundtrip", cs, "re-parsed tree differs: " + why);
       else if(n == 50 && p == 1 && t == 1) vf::sample(cs, 3);
+    }
+  }
+  if(mode == "sizes")
+  { // wide trees: a root with n children for n = 0..--len and around every power of two up to 2^14 (per-document bookkeeping of the parser -
+    // counters, stacks, position tables - has thresholds in the number of elements, not only in their nesting depth)
+    std::vector<int> counts;
+    vf::ledger().cap_bytes = 1024ll << 20;   // an element with an attribute owns a 500-bucket table
+    for(int n = 0; n <= len; ++n) counts.push_back(n);
+    for(int k = 8; k <= 14; ++k) for(int d = -1; d <= 1; ++d) if((1 << k) + d > len) counts.push_back((1 << k) + d);
+    for(size_t ci = 0; ci < counts.size(); ++ci) for(int kind = 0; kind < 3; ++kind)
+    {
+      if(!sh.take()) continue;
+      int n = counts[ci];
+      MNode root; root.name = "r";
+      for(int i = 0; i < n; ++i)
+      {
+        MNode c; c.name = "e";
+        if(kind == 2) c.attrs.push_back(std::make_pair(std::string("i"), vf::fmt("%d", i)));
+        if(kind == 1 && (i & 1)) { MNode x; x.isText = true; x.text = "t"; c.kids.push_back(x); }
+        root.kids.push_back(c);
+      }
+      Xml::Element e = build(root);
+      std::string cs = vf::fmt("sizes wide children=%d kind=%d", n, kind);
+      vf::crumb("xml.sizes", sh.token(), cs);
+      vf::watchdog_arm(60000);
+      String text = Xml::toString(e);
+      vf::Exact ex(sstr(text), true);
+      Xml::Parser ps; Xml::Element back;
+      vf::hit("size_documents"); vf::hit("wide_documents"); if(n >= 2) vf::hit("distinct_nontrivial");
+      std::string why;
+      if(!ps.parse(String::fromCString(ex.p, text.length()), back))
+        vf::violation("C16:xml:roundtrip", cs, vf::fmt("serialised text is rejected: line %d column %d: %s", ps.getErrorLine(), ps.getErrorColumn(), (const char*)ps.getErrorString()));
+      else if(!same(back, root, why, "/r")) vf::violation("C16:xml:roundtrip", cs, "re-parsed tree differs: " + why);
     }
   }
   vf::watchdog_disarm();
